@@ -56,6 +56,8 @@ def _build():
     _add('one[COUNT(*)]', Q(items=[Item('COUNT(*)', lambda e: 1, kind='agg', agg='COUNT')]), ['ii', 'ii', 'ii'])
     _add('one[count( * )]', Q(items=[Item('count( * )', lambda e: 1, kind='agg', agg='COUNT'), Item("'COUNT(*)'", lambda e: 'COUNT(*)')]), ['ii', 'ii'], quick=True)
     _add('one[COUNT(1)]', Q(items=[Item('COUNT(1)', lambda e: 1, kind='agg', agg='COUNT')]), ['ii', 'ii', 'ii'])
+    _add('count[none-cells]', Q(items=[agg('COUNT', 'a2', A2, 'count'), Item('COUNT(*)', lambda e: 1, kind='agg', agg='COUNT'), agg('ARRAY_AGG', 'a2', A2)]), ['io', 'i', 'io'], quick=True, slen=1)
+    _add('count[none-cells,grp]', Q(items=[fa(1), agg('COUNT', 'a2', A2, 'Count'), agg('COUNT', 'a3', lambda e: e.a(3))], group=G1), ['ko', 'k', 'koo', 'k'], quick=True, slen=1, krange=2)
     _add('one[MEDIAN]1row', Q(items=[agg('MEDIAN', 'a2', A2)]), ['ii'])
     _add('one[all]where', Q(items=[agg('COUNT', 'a1', lambda e: e.a(1)), agg('SUM', 'a2', A2, 'sum'), agg('MIN', 'a2', A2), agg('MAX', 'a2', A2, 'Max')], where=W_POS), ['ii', 'ii', 'ii'], quick=True)
     _add('one[empty]', Q(items=[agg('SUM', 'a2', A2)]), [], quick=True)
